@@ -48,7 +48,7 @@ func (heapEngine) Name() string     { return "heap" }
 func (heapEngine) Property() string { return "C11" }
 func (heapEngine) NumCases(tier string) int {
 	if tier == "thorough" {
-		return 400000
+		return 1500000
 	}
 	return 16000
 }
